@@ -75,6 +75,28 @@ Definition fm_is_const (o : fm_op) : bool :=
   | _ => false
   end.
 
+(* Call sites may pass an argument of another type than KEY (a double to a FlatMap<float,_>, an int
+   outside the range of a short / unsigned char key, a const char* to a std::string key): every keyed
+   member takes `const KEY &`, so the argument is converted to KEY at the call, before the member runs.
+   The conversion is data (argument code -> code of the converted key; identity when not listed): the
+   harness computes it with the real static_cast at start-up, no float arithmetic here. *)
+Definition conv_tbl := list (N * N).
+Definition conv (t : conv_tbl) (a : N) : N :=
+  match fm_lookup t a with Some k => k | None => a end.
+
+Definition fm_op_conv (t : conv_tbl) (o : fm_op) : fm_op :=
+  match o with
+  | FAt a => FAt (conv t a)
+  | FIndex a => FIndex (conv t a)
+  | FSet a v => FSet (conv t a) v
+  | FContains a => FContains (conv t a)
+  | FErase a => FErase (conv t a)
+  | FAtC a => FAtC (conv t a)
+  | FAtIndex _ | FAtIndexC _ | FSize | FEmpty | FClear => o
+  end.
+
+Definition fm_step_conv (t : conv_tbl) (m : fm) (o : fm_op) : fm * fm_out := fm_step m (fm_op_conv t o).
+
 Definition fm_run (ops : list fm_op) : fm * list (fm_out * fm) :=
   fold_left (fun '(m, acc) o => let '(m', out) := fm_step m o in (m', acc ++ [(out, m')]))
             ops ([], []).
